@@ -198,11 +198,9 @@ def sequences(spec, chk, name, L):
     tasks = []
     nops = len(spec.ops)
     for l in range(0, L + 1):
-        if l <= 1:
+        if l <= 1 or nops ** l <= 64:
             tasks.append(((), l))
-        elif nops ** l <= 4000:
-            tasks.append(((), l))
-        elif l == 2 or nops ** (l - 1) <= 20000:
+        elif l == 2 or nops ** (l - 1) <= 3000:
             tasks.extend(((a,), l) for a in range(nops))
         else:
             tasks.extend(((a, b), l) for a in range(nops) for b in range(nops))
